@@ -244,6 +244,9 @@ func badEntries(fl map[string]bw.PFile, rules []model.IgRule) ([]string, bool) {
 // splitSource inverts Pkg.Source: which package and sub-path does this
 // remote source text name?
 func (w *world) splitSource(t string) (int, string, bool) {
+	for _, pre := range madePrefixes {
+		t = strings.TrimPrefix(t, pre)
+	}
 	for pi := range w.sc.Pkgs {
 		p := &w.sc.Pkgs[pi]
 		s := t
@@ -273,6 +276,9 @@ func (w *world) splitSource(t string) (int, string, bool) {
 // printed is the form in which the library prints the remote source text t:
 // the other spelling of a package address gives way to the one that prints.
 func (w *world) printed(t string) string {
+	for _, pre := range madePrefixes {
+		t = strings.TrimPrefix(t, pre)
+	}
 	for pi := range w.sc.Pkgs {
 		if a := w.sc.Pkgs[pi].AltBase; a != "" && (t == a || strings.HasPrefix(t, a+"//") || strings.HasPrefix(t, a+"?")) {
 			return w.sc.Pkgs[pi].Base + t[len(a):]
@@ -330,7 +336,9 @@ func newestAllowed(offered []bw.RegVer, allowed versions.Set) (string, bool) {
 		if err != nil || !allowed.Has(v) {
 			continue
 		}
-		if best < 0 || v.GreaterThan(bestV) {
+		// among versions of equal precedence (they differ in build metadata only) the one that
+		// prints last: any rule will do as long as it does not look at the order of the listing
+		if best < 0 || v.GreaterThan(bestV) || (!bestV.GreaterThan(v) && o.V > offered[best].V) {
 			best, bestV = i, v
 		}
 	}
